@@ -164,6 +164,23 @@ def prime(root, s, own_text):
         open(p, "w").write(STALE)
 
 
+_GOFMT = []
+
+
+def gofmt_rejects(text):
+    """True when gofmt cannot parse the text (the gofmt binary of the toolchain in use)."""
+    if not _GOFMT:
+        try:
+            root = subprocess.run(["go", "env", "GOROOT"], env=CLIENV, capture_output=True, text=True).stdout.strip()
+            _GOFMT.append(os.path.join(root, "bin", "gofmt"))
+        except Exception:
+            _GOFMT.append("")
+    if not _GOFMT[0] or not os.path.exists(_GOFMT[0]):
+        return False
+    p = subprocess.run([_GOFMT[0], "-e"], input=text, capture_output=True, text=True)
+    return p.returncode != 0
+
+
 def run_cli(moq, root, s, timeout=60):
     t0 = time.time()
     try:
@@ -276,6 +293,11 @@ def one(moq, base, s, own_cache):
                             which.append("C20")
                         if not any(f == "noop" for f in s["flags"]):
                             which.append("C16")
+                        resets = lambda t: sorted(set(re.findall(r"^func \(mock \*\w+(?:\[[^\]]*\])?\) (Reset\w*)\(", t, re.M)))
+                        if resets(text) != resets(ref):
+                            which.append("C08")     # reset methods present/absent against the flag
+                        if gofmt_rejects(text):
+                            which.append("C01")     # what is on disk is not a Go file any more
                         verdicts["+".join(which)] = ("success, but the -out file is not what the same command prints to standard output "
                                                      "(%d vs %d bytes; mock types in the file %s, expected %s)" % (len(text), len(ref), mocks_file, mocks_ref))
             else:
